@@ -196,6 +196,121 @@ def rule_method_gates(check):
     check.expect(writers == ["visit_mut_expr"], R, R + "/found-writers", "-", "`found` only set in the gated branch", "`found` is written in %s" % writers)
 
 
+def _stmt_index(block, f, node):
+    """index of the direct statement (or tail = len) of `block` that contains node, else None"""
+    chain = [node] + list(f.ancestors(node))
+    ids = {id(x) for x in chain}
+    for i, st in enumerate(block["stmts"]):
+        e = st.get("init") if st["k"] == "Let" else st.get("e")
+        if e is not None and (id(e) in ids or any(id(x) in ids for x in [e])):
+            return i
+        if id(st) in ids:
+            return i
+    if "tail" in block and id(block["tail"]) in ids:
+        return len(block["stmts"])
+    return None
+
+
+def _dominated_by(f, p_site, d_site):
+    """structural dominance: p_site is (the expression of) a direct statement of a block B and d_site lies
+    in a later statement (or the tail) of the same block B"""
+    par = f.parent(p_site)
+    while par is not None and par.get("k") in ("DropTemps", "Use"):
+        par = f.parent(par)
+    blocks = [a for a in f.ancestors(p_site) if a.get("k") == "Block"]
+    if not blocks:
+        return False
+    b = blocks[0]
+    pi = None
+    for i, st in enumerate(b["stmts"]):
+        e = st.get("init") if st["k"] == "Let" else st.get("e")
+        if e is not None and hir.peel(e) is p_site:
+            pi = i
+    if pi is None:
+        return False
+    if not any(a is b for a in f.ancestors(d_site)):
+        return False
+    # which statement of b holds d_site
+    anc = {id(x) for x in f.ancestors(d_site)} | {id(d_site)}
+    for j, st in enumerate(b["stmts"]):
+        e = st.get("init") if st["k"] == "Let" else st.get("e")
+        if e is not None and any(id(x) in anc for x in hir.walk(e)):
+            return j > pi
+    return "tail" in b and any(id(x) in anc for x in hir.walk(b["tail"]))
+
+
+def rule_call_apply_name(check):
+    """The configured name consulted for `F.call(..)` / `F.apply(..)` is the property through which F
+    itself is read (`<obj>.<name>.call`), never a name found deeper in the member chain."""
+    R = "METHOD-GATE"
+    prog = check.prog
+    pv = Prov(prog)
+    g = prog.fn("FunctionPrototypeTransform::get_expression_parts_from_call_or_apply")
+    cands = []
+    for n in hir.calls_in(g.body):
+        h = prog.resolve_local(n)
+        if h is None or h is g or h.body is None:
+            continue
+        args = hir.call_args(n)
+        vec_arg = [i for i, a in enumerate(args) if a.get("k") == "AddrOf" and a.get("mut") and hir.local_of(a) and "Vec<" in (hir.peel(a).get("ty") or "")]
+        mem_arg = [i for i, a in enumerate(args) if "MemberExpr" in (hir.peel(a).get("ty") or "")]
+        if vec_arg and mem_arg:
+            cands.append((n, h, mem_arg[0], vec_arg[0]))
+    key = R + "/call-or-apply-name"
+    if len(cands) != 1:
+        check.bad(R, key, hir.loc(g.rec), "cannot find the one helper that collects the member path of `F.call/apply` (%d candidates)" % len(cands))
+        return
+    n, h, mi, vi = cands[0]
+    vec_l = hir.local_of(hir.call_args(n)[vi])[0]
+    b = g.bindings()[vec_l]
+    fresh = b["origin"][0] == "let" and b["origin"][1] is not None and all(r[0] == "call" and ("Vec" in r[1]) for r, p_ in pv.origins(g, b["origin"][1])) and bool(pv.origins(g, b["origin"][1]))
+    mo = pv.origins(g, hir.call_args(n)[mi])
+    whole = bool(mo) and all(r[0] == "param" and p_ == () for r, p_ in mo)
+    idxs = [x for x in g.nodes() if x.get("k") == "Index" and (hir.local_of(x["x"]) or (None,))[0] == vec_l]
+    first_only = bool(idxs) and all(hir.lit_value(x["i"]) == 0 for x in idxs)
+    other_use = [x for x in g.nodes() if hir.is_call(x) and x is not n and any((hir.local_of(a) or (None,))[0] == vec_l for a in hir.call_args(x))]
+    check.expect(fresh and whole and first_only and not other_use, R, key + "/first-element", hir.loc(n), "the method name is element 0 of a fresh vector filled by %s(member)" % h.name, "the method name of `F.call/apply` is not element 0 of a fresh path vector (fresh=%s, whole member=%s, only [0] read=%s, other uses=%d)" % (fresh, whole, first_only, len(other_use)))
+    # inside the helper: a push of the current member's own property dominates every other push and every descent
+    prm = hir.pat_bindings(h.rec["params"][mi]["pat"])
+    vprm = hir.pat_bindings(h.rec["params"][vi]["pat"])
+    if not prm or not vprm:
+        check.bad(R, key, hir.loc(h.rec), "unrecognised parameters of %s" % h.name)
+        return
+    vloc = vprm[0]["local"]
+    loops = [x for x in h.nodes() if x.get("k") == "Loop"]
+    pushes = [x for x in h.nodes() if hir.is_call(x) and (hir.callee_name(x) or x.get("method")) in ("push", "insert", "extend", "push_back") and (hir.local_of(hir.call_args(x)[0]) or (None,))[0] == vloc]
+    descents = [x for x in h.nodes() if hir.is_call(x) and prog.resolve_local(x) is h]
+    loops = [l for l in loops if any(any(y is l for y in h.ancestors(x)) for x in pushes + descents)]
+    if loops:
+        check.bad(R, key, hir.loc(loops[0]), "%s walks the member chain with a loop; the rule only follows the recursive form and cannot show that a name is pushed before every step down the chain" % h.name)
+        return
+    own = []
+    for x in pushes:
+        os_ = pv.origins(h, hir.call_args(x)[1])
+        if os_ and all(r[0] == "param" and r[2] == mi and p_[:1] == ("prop",) for r, p_ in os_) and (x.get("method") or hir.callee_name(x)) == "push":
+            own.append(x)
+    ok = len(own) == 1
+    why = []
+    if not ok:
+        why.append("%d pushes of the member's own property" % len(own))
+    else:
+        for x in pushes:
+            if x is own[0]:
+                continue
+            if not _dominated_by(h, own[0], x):
+                ok = False
+                why.append("a push at %s is not preceded by the push of the member's own property" % hir.loc(x))
+        for d in descents:
+            do = pv.origins(h, hir.call_args(d)[mi])
+            if not (do and all(r[0] == "param" and r[2] == mi and p_[:1] == ("obj",) for r, p_ in do)):
+                ok = False
+                why.append("the step at %s does not go to member.obj" % hir.loc(d))
+            if not _dominated_by(h, own[0], d):
+                ok = False
+                why.append("the step down the chain at %s is taken without pushing this member's property first (a computed or private key is skipped)" % hir.loc(d))
+    check.expect(ok, R, key + "/contiguous", hir.loc(h.rec), "%s pushes member.prop before any other element and before stepping to member.obj" % h.name, "%s can report a name that is not the direct property of the called function: %s" % (h.name, "; ".join(why)))
+
+
 def rule_names(check):
     R = "HOOK-NAMES"
     check.rule(R, "the member name dereferenced on the hook namespace is always the configured replacement name (dst) of the entry that gated the emission; the namespace identifier is the constant _ddiast and nothing else builds a member access on it")
@@ -464,6 +579,7 @@ def run(check):
     check.guarded("CONFIG-PLUMBING", rule_config_plumbing)
     check.guarded("OP-GATE", rule_op_gates)
     check.guarded("METHOD-GATE", rule_method_gates)
+    check.guarded("METHOD-GATE", rule_call_apply_name)
     check.guarded("HOOK-NAMES", rule_names)
     check.guarded("PROLOGUE", rule_prologue)
     check.guarded("DEFAULTS", rule_defaults)
